@@ -676,6 +676,11 @@ def senddata_shape(m):
     if not (off[0] == "adt" and len(off[4]) == 1):
         return "offset is not an Offset(..) aggregate"
     o = off[4][0]
+    if o[0] == "app" and o[1] == "wrapping_mul" and len(o[2]) == 2 and any(x[0] == "app" and x[1] == "cast:u16" for x in o[2]):
+        # (i as u16).wrapping_mul(N) == (i * N) as u16: truncation commutes with multiplication mod 2^16
+        c = [x for x in o[2] if x[0] == "app" and x[1] == "cast:u16"][0]
+        k = [x for x in o[2] if x is not c][0]
+        o = ("app", "cast:u16", (("app", "Mul", (c[2][0], mk_int(k[1], "usize") if k[0] == "int" else k)),))
     if not (o[0] == "app" and o[1] == "cast:u16"):
         return "offset %s is not a u16 truncation" % fmt_term(o)
     mul = o[2][0]
